@@ -81,7 +81,7 @@ package bjse_trade_bin
 //@   "062"->TradeCaptureReportExtend062
 
 //@ layout AllegeQuote [proto bjse_trade_bin_v0.9, LE]
-//@   dyn ApplExtend by ApplId in allegeQuoteApplIdFactoryCache
+//@   dyn ApplExtend by ApplId in allegeQuoteApplIdFactoryCache fills
 //@   path ApplExtend == nil
 //@     seg encw(LE, 4, (PartitionNo % pow2(32)))
 //@     seg encw(LE, 8, (ReportIndex % pow2(64)))
@@ -174,7 +174,7 @@ package bjse_trade_bin
 //@     seg encw(LE, 1, PriceType)
 
 //@ layout BjseBinary [proto bjse_trade_bin_v0.9, LE]
-//@   dyn Body by MsgType in bjseBinaryMsgTypeFactoryCache
+//@   dyn Body by MsgType in bjseBinaryMsgTypeFactoryCache fills
 //@   path Body == nil
 //@     seg encw(LE, 4, MsgType)
 //@     seg encw(LE, 4, BodyLength)
@@ -259,7 +259,7 @@ package bjse_trade_bin
 //@     seg fixed(ShareProperty, 2, 32, R)
 
 //@ layout ExecutionConfirm [proto bjse_trade_bin_v0.9, LE]
-//@   dyn ApplExtend by ApplId in executionConfirmApplIdFactoryCache
+//@   dyn ApplExtend by ApplId in executionConfirmApplIdFactoryCache fills
 //@   path ApplExtend == nil
 //@     seg encw(LE, 4, (PartitionNo % pow2(32)))
 //@     seg encw(LE, 8, (ReportIndex % pow2(64)))
@@ -320,7 +320,7 @@ package bjse_trade_bin
 //@     seg Wd(ApplExtend.tag, ApplExtend.mv)
 
 //@ layout ExecutionReport [proto bjse_trade_bin_v0.9, LE]
-//@   dyn ApplExtend by ApplId in executionReportApplIdFactoryCache
+//@   dyn ApplExtend by ApplId in executionReportApplIdFactoryCache fills
 //@   path ApplExtend == nil
 //@     seg encw(LE, 4, (PartitionNo % pow2(32)))
 //@     seg encw(LE, 8, (ReportIndex % pow2(64)))
@@ -428,7 +428,7 @@ package bjse_trade_bin
 //@     seg fixed(Text, 200, 32, R)
 
 //@ layout NewOrder [proto bjse_trade_bin_v0.9, LE]
-//@   dyn ApplExtend by ApplId in newOrderApplIdFactoryCache
+//@   dyn ApplExtend by ApplId in newOrderApplIdFactoryCache fills
 //@   path ApplExtend == nil
 //@     seg fixed(ApplId, 3, 32, R)
 //@     seg fixed(SubmittingPbuid, 6, 32, R)
@@ -500,7 +500,7 @@ package bjse_trade_bin
 //@     seg encw(LE, 2, PlatformState)
 
 //@ layout Quote [proto bjse_trade_bin_v0.9, LE]
-//@   dyn ApplExtend by ApplId in quoteApplIdFactoryCache
+//@   dyn ApplExtend by ApplId in quoteApplIdFactoryCache fills
 //@   path ApplExtend == nil
 //@     seg fixed(ApplId, 3, 32, R)
 //@     seg fixed(SubmittingPbuid, 6, 32, R)
@@ -566,7 +566,7 @@ package bjse_trade_bin
 //@   path always
 
 //@ layout QuoteResponse [proto bjse_trade_bin_v0.9, LE]
-//@   dyn ApplExtend by ApplId in quoteResponseApplIdFactoryCache
+//@   dyn ApplExtend by ApplId in quoteResponseApplIdFactoryCache fills
 //@   path ApplExtend == nil
 //@     seg fixed(ApplId, 3, 32, R)
 //@     seg fixed(ReportingPbuid, 6, 32, R)
@@ -617,7 +617,7 @@ package bjse_trade_bin
 //@     seg fixed(CashMargin, 1, 32, R)
 
 //@ layout QuoteStatusReport [proto bjse_trade_bin_v0.9, LE]
-//@   dyn ApplExtend by ApplId in quoteStatusReportApplIdFactoryCache
+//@   dyn ApplExtend by ApplId in quoteStatusReportApplIdFactoryCache fills
 //@   path ApplExtend == nil
 //@     seg encw(LE, 4, (PartitionNo % pow2(32)))
 //@     seg encw(LE, 8, (ReportIndex % pow2(64)))
@@ -713,7 +713,7 @@ package bjse_trade_bin
 //@     seg flat(k_obj(tag(ReportPartitionSync)), ReportPartitionSync, 0, len(ReportPartitionSync))
 
 //@ layout TradeCaptureConfirm [proto bjse_trade_bin_v0.9, LE]
-//@   dyn ApplExtend by ApplId in tradeCaptureConfirmApplIdFactoryCache
+//@   dyn ApplExtend by ApplId in tradeCaptureConfirmApplIdFactoryCache fills
 //@   path ApplExtend == nil
 //@     seg encw(LE, 4, (PartitionNo % pow2(32)))
 //@     seg encw(LE, 8, (ReportIndex % pow2(64)))
@@ -806,7 +806,7 @@ package bjse_trade_bin
 //@     seg fixed(CashMargin, 1, 32, R)
 
 //@ layout TradeCaptureReport [proto bjse_trade_bin_v0.9, LE]
-//@   dyn ApplExtend by ApplId in tradeCaptureReportApplIdFactoryCache
+//@   dyn ApplExtend by ApplId in tradeCaptureReportApplIdFactoryCache fills
 //@   path ApplExtend == nil
 //@     seg fixed(ApplId, 3, 32, R)
 //@     seg fixed(SubmittingPbuid, 6, 32, R)
@@ -863,7 +863,7 @@ package bjse_trade_bin
 //@     seg Wd(ApplExtend.tag, ApplExtend.mv)
 
 //@ layout TradeCaptureReportAck [proto bjse_trade_bin_v0.9, LE]
-//@   dyn ApplExtend by ApplId in tradeCaptureReportAckApplIdFactoryCache
+//@   dyn ApplExtend by ApplId in tradeCaptureReportAckApplIdFactoryCache fills
 //@   path ApplExtend == nil
 //@     seg encw(LE, 4, (PartitionNo % pow2(32)))
 //@     seg encw(LE, 8, (ReportIndex % pow2(64)))
